@@ -76,8 +76,12 @@ def main():
     ap.add_argument('--property')
     ap.add_argument('--no-seeds', action='store_true')
     ap.add_argument('--jobs', type=int, default=3)
+    ap.add_argument('--match', help='regular expression on entry ids; the results are merged into the existing out/selftest.json')
     a = ap.parse_args()
     es = entries(a.property, not a.no_seeds)
+    if a.match:
+        import re
+        es = [e for e in es if re.search(a.match, e['id'])]
     res = []
     with cf.ThreadPoolExecutor(max_workers=a.jobs) as pool:
         for r in pool.map(one, es):
@@ -85,7 +89,14 @@ def main():
             print('%-12s %-4s expect=%-8s got=%-10s %s %s' % (r['id'], r.get('property', ''), r.get('expect', ''), r['got'], 'ok' if r['ok'] else ('SKIP' if r['ok'] is None else 'MISMATCH'), r.get('first', '')), flush=True)
     bad = [r for r in res if r['ok'] is False]
     print('selftest: %d as expected, %d mismatches, %d skipped' % (sum(1 for r in res if r['ok']), len(bad), sum(1 for r in res if r['ok'] is None)))
-    json.dump(res, open(os.path.join(ROOT, 'out', 'selftest.json'), 'w'), indent=1)
+    fn = os.path.join(ROOT, 'out', 'selftest.json')
+    if a.match and os.path.exists(fn):
+        old = json.load(open(fn))
+        key = lambda r: (r['id'], r.get('property'))
+        new = {key(r): r for r in res}
+        res = [new.pop(key(r), r) for r in old] + list(new.values())
+        print('merged into %d recorded entries: %d as expected, %d mismatches, %d skipped' % (len(res), sum(1 for r in res if r['ok']), sum(1 for r in res if r['ok'] is False), sum(1 for r in res if r['ok'] is None)))
+    json.dump(res, open(fn, 'w'), indent=1)
     return 3 if bad else 0
 
 
